@@ -201,19 +201,20 @@ End Step.
 (* ---------------------------------------------------------------------------------------------- *)
 (* arithmetic of the emitted instructions *)
 
-Definition vsz_ok (z : Z) : Prop := z = 4 \/ z = 8 \/ z = 16.
+(* 32 / 64-byte vectors (YMM / ZMM) only with the VEX / EVEX encodings *)
+Definition vsz_ok (a : farch) (z : Z) : Prop := z = 4 \/ z = 8 \/ z = 16 \/ (a = FX64A /\ (z = 32 \/ z = 64)).
 
 (* the types of a variable: integers of 1/2/4/8 bytes on both sides, or the same 4/8/16-byte non-integer type on both sides *)
-Definition ty_ok (int : bool) (csz : Z) (csg : bool) (osz : Z) (osg : bool) : Prop :=
-  if int then sz_ok csz /\ sz_ok osz else vsz_ok csz /\ osz = csz /\ csg = false /\ osg = false.
+Definition ty_ok (a : farch) (int : bool) (csz : Z) (csg : bool) (osz : Z) (osg : bool) : Prop :=
+  if int then sz_ok csz /\ sz_ok osz else vsz_ok a csz /\ osz = csz /\ csg = false /\ osg = false.
 
-Lemma ty_ok_range int csz csg osz osg : ty_ok int csz csg osz osg -> 1 <= csz <= 16 /\ 1 <= osz <= 16.
+Lemma ty_ok_range a int csz csg osz osg : ty_ok a int csz csg osz osg -> 1 <= csz <= 64 /\ 1 <= osz <= 64.
 Proof. unfold ty_ok, sz_ok, vsz_ok. destruct int; lia. Qed.
 
-Lemma ty_ok_nonint csz csg osz osg : ty_ok false csz csg osz osg -> osz = csz.
+Lemma ty_ok_nonint a csz csg osz osg : ty_ok a false csz csg osz osg -> osz = csz.
 Proof. unfold ty_ok. tauto. Qed.
 
-Lemma ty_ok_moved int csz csg osz osg : ty_ok int csz csg osz osg -> ty_ok int osz osg osz osg.
+Lemma ty_ok_moved a int csz csg osz osg : ty_ok a int csz csg osz osg -> ty_ok a int osz osg osz osg.
 Proof. unfold ty_ok. destruct int; [tauto|]. intros [H1 [H2 [H3 H4]]]. subst. tauto. Qed.
 
 (* the requirement of fmove_of depends on the types only *)
@@ -248,23 +249,23 @@ Definition fparam_check (p : ext * Z * Z * Z) (int : bool) (csz : Z) (csg : bool
   (negb (csz =? osz) || (8 * osz <=? n)).
 
 (* the finite case analysis: 2 architectures x register / memory source x types *)
-Lemma fc_params_ok a reg int csz csg osz osg : ty_ok int csz csg osz osg ->
+Lemma fc_params_ok a reg int csz csg osz osg : ty_ok a int csz csg osz osg ->
   fparam_check (fc_params a reg int csz csg osz osg) int csz csg osz osg = true.
 Proof.
   unfold ty_ok. destruct int.
   - intros [[H1 | [H1 | [H1 | H1]]] [H2 | [H2 | [H2 | H2]]]]; subst; destruct a, reg, csg, osg; vm_compute; reflexivity.
-  - intros [[H1 | [H1 | H1]] [H2 [H3 H4]]]; subst; destruct a, reg; vm_compute; reflexivity.
+  - intros [[H1 | [H1 | [H1 | [Ha [H1 | H1]]]]] [H2 [H3 H4]]]; subst; try (destruct a); destruct reg; vm_compute; reflexivity.
 Qed.
 
 (* ONE lemma about the converting move / load: it writes the destination only; the value written satisfies the requirement
    when the source holds the not-yet-converted value, and keeps the low destination-size bits when the sizes are equal *)
-Lemma fconv_sound a d s int csz csg osz osg st : ty_ok int csz csg osz osg ->
+Lemma fconv_sound a d s int csz csg osz osg st : ty_ok a int csz csg osz osg ->
   exists V, exec_inst st (fconv a d s int csz csg osz osg) = upd st d V /\
     (forall x, st s mod 2 ^ (8 * csz) = x mod 2 ^ (8 * csz) -> dst_ok (fmk_mv int csz csg osz osg) x V) /\
     (csz = osz -> V mod 2 ^ (8 * osz) = st s mod 2 ^ (8 * osz)).
 Proof.
   intros Hty. pose proof (fc_params_ok a (is_regl s) int csz csg osz osg Hty) as Hp.
-  destruct (ty_ok_range _ _ _ _ _ Hty) as [Hc0 Ho0].
+  destruct (ty_ok_range _ _ _ _ _ _ Hty) as [Hc0 Ho0].
   rewrite fconv_eq. destruct (fc_params a (is_regl s) int csz csg osz osg) as [[[e n] w] wz]. cbn [exec_inst].
   eexists. split; [reflexivity|].
   unfold fparam_check in Hp.
@@ -286,6 +287,13 @@ Qed.
 
 Lemma fconv_writes a d s int csz csg osz osg : inst_writes (fconv a d s int csz csg osz osg) = [d].
 Proof. rewrite fconv_eq. destruct (fc_params a (is_regl s) int csz csg osz osg) as [[[e n] w] wz]. reflexivity. Qed.
+
+Lemma fconv_wf a d s int csz csg osz osg : ty_ok a int csz csg osz osg -> wf_inst (fconv a d s int csz csg osz osg) = true.
+Proof.
+  intros Hty. pose proof (fc_params_ok a (is_regl s) int csz csg osz osg Hty) as Hp.
+  rewrite fconv_eq. destruct (fc_params a (is_regl s) int csz csg osz osg) as [[[e n] w] wz]. cbn [wf_inst].
+  unfold fparam_check in Hp. apply andb_prop in Hp. destruct Hp as [Hp _]. apply andb_prop in Hp. destruct Hp as [Hp _]. exact Hp.
+Qed.
 
 (* the store: exactly n bits, copied *)
 Lemma fstore_sound d s n st : 0 <= n ->
@@ -353,7 +361,7 @@ Definition locp (src : bool) (v : fvar) (l : loc) : Prop :=
   end.
 
 Definition v0_ok (v0 : fvar) : Prop :=
-  ty_ok (f_int v0) (f_csz v0) (f_csg v0) (f_osz v0) (f_osg v0) /\ locp true v0 (f_cur v0) /\ locp false v0 (f_out v0) /\
+  ty_ok a (f_int v0) (f_csz v0) (f_csg v0) (f_osz v0) (f_osg v0) /\ locp true v0 (f_cur v0) /\ locp false v0 (f_out v0) /\
   (is_regl (f_cur v0) = false -> is_regl (f_out v0) = false -> f_int v0 = true).
 
 Hypothesis Hv0 : forall i v0, nth_error vs0 i = Some v0 -> v0_ok v0.
@@ -361,15 +369,15 @@ Hypothesis Hout0 : fout_inj vs0.
 
 (* frame *)
 Definition fallowed (l : loc) : Prop := In l (map f_out vs0) \/ In l (map (Reg 0) wgp) \/ In l (map (Reg 1) wvec).
-Definition fwr_ok (i : minst) : Prop := forall l, In l (inst_writes i) -> fallowed l.
+Definition fwr_ok (i : minst) : Prop := (forall l, In l (inst_writes i) -> fallowed l) /\ wf_inst i = true.
 
 Lemma work_allowed g r v : g = vgrp v -> In r (work_of wgp wvec g) -> fallowed (Reg g r).
 Proof.
   unfold vgrp, work_of. intros E Hr. subst g. destruct (f_int v); cbn in Hr; right; [left | right]; apply in_map; assumption.
 Qed.
 
-Lemma fwr_ok_snoc emit i : Forall fwr_ok emit -> (forall l, In l (inst_writes i) -> fallowed l) -> Forall fwr_ok (emit ++ [i]).
-Proof. intros H1 H2. apply Forall_app. split; [assumption|]. constructor; [exact H2 | constructor]. Qed.
+Lemma fwr_ok_snoc emit i : Forall fwr_ok emit -> wf_inst i = true -> (forall l, In l (inst_writes i) -> fallowed l) -> Forall fwr_ok (emit ++ [i]).
+Proof. intros H1 Hw H2. apply Forall_app. split; [assumption|]. constructor; [split; [exact H2 | exact Hw] | constructor]. Qed.
 
 (* content c of the current location of v: not yet converted / converted *)
 Definition val_rel (v0 v : fvar) (c : Z) : Prop :=
@@ -396,31 +404,31 @@ Definition finv (vars : list fvar) (emit : list minst) : Prop :=
 Lemma vrel_ext st st' v0 v : st' (f_cur v) = st (f_cur v) -> vrel st v0 v -> vrel st' v0 v.
 Proof. unfold vrel. intros E. rewrite E. tauto. Qed.
 
-Lemma val_rel_ty v0 v c : ty_ok (f_int v0) (f_csz v0) (f_csg v0) (f_osz v0) (f_osg v0) -> val_rel v0 v c ->
-  ty_ok (f_int v0) (f_csz v) (f_csg v) (f_osz v0) (f_osg v0).
+Lemma val_rel_ty v0 v c : ty_ok a (f_int v0) (f_csz v0) (f_csg v0) (f_osz v0) (f_osg v0) -> val_rel v0 v c ->
+  ty_ok a (f_int v0) (f_csz v) (f_csg v) (f_osz v0) (f_osg v0).
 Proof.
   intros Hty [[E1 [E2 _]] | [E1 [E2 _]]]; rewrite E1, E2; [assumption | eapply ty_ok_moved; eassumption].
 Qed.
 
-Lemma vrel_ty st v0 v : v0_ok v0 -> vrel st v0 v -> ty_ok (f_int v) (f_csz v) (f_csg v) (f_osz v) (f_osg v).
+Lemma vrel_ty st v0 v : v0_ok v0 -> vrel st v0 v -> ty_ok a (f_int v) (f_csz v) (f_csg v) (f_osz v) (f_osg v).
 Proof.
   intros [Hty _] [Ro [Rz [Rg [Ri [Rd [Rc Rv]]]]]]. rewrite Rz, Rg, Ri. eapply val_rel_ty; eassumption.
 Qed.
 
 (* val_rel looks at the low (current size) bits only *)
-Lemma val_rel_low v0 v v' c c' : ty_ok (f_int v0) (f_csz v0) (f_csg v0) (f_osz v0) (f_osg v0) ->
+Lemma val_rel_low v0 v v' c c' : ty_ok a (f_int v0) (f_csz v0) (f_csg v0) (f_osz v0) (f_osg v0) ->
   f_csz v' = f_csz v -> f_csg v' = f_csg v ->
   c' mod 2 ^ (8 * f_csz v) = c mod 2 ^ (8 * f_csz v) -> val_rel v0 v c -> val_rel v0 v' c'.
 Proof.
   intros Hty Ez Eg E [[E1 [E2 E3]] | [E1 [E2 E3]]]; [left | right]; (split; [congruence|]); (split; [congruence|]).
   - rewrite <- E1. rewrite E. rewrite E1. assumption.
-  - destruct (ty_ok_range _ _ _ _ _ Hty) as [R1 R2].
+  - destruct (ty_ok_range _ _ _ _ _ _ Hty) as [R1 R2].
     apply (dst_ok_low (fmove_of v0) _ c c'); unfold fmove_of; cbn [m_sbits m_dbits]; try lia; try assumption.
     rewrite <- E1. symmetry. assumption.
 Qed.
 
 (* the converting move / load *)
-Lemma val_rel_conv_dst v0 v c V : ty_ok (f_int v0) (f_csz v0) (f_csg v0) (f_osz v0) (f_osg v0) ->
+Lemma val_rel_conv_dst v0 v c V : ty_ok a (f_int v0) (f_csz v0) (f_csg v0) (f_osz v0) (f_osg v0) ->
   f_osz v = f_osz v0 -> f_osg v = f_osg v0 -> f_int v = f_int v0 ->
   val_rel v0 v c ->
   (forall x, c mod 2 ^ (8 * f_csz v) = x mod 2 ^ (8 * f_csz v) ->
@@ -431,12 +439,12 @@ Proof.
   intros Hty Ez Eg Ei Hv P1 P2.
   destruct Hv as [[E1 [E2 E3]] | [E1 [E2 E3]]].
   - apply dst_ok_fmove_of. rewrite <- E1, <- E2, <- Ez, <- Eg, <- Ei. apply P1. rewrite E1. assumption.
-  - destruct (ty_ok_range _ _ _ _ _ Hty) as [R1 R2].
+  - destruct (ty_ok_range _ _ _ _ _ _ Hty) as [R1 R2].
     apply (dst_ok_low (fmove_of v0) _ c V); unfold fmove_of; cbn [m_sbits m_dbits]; try lia; try assumption.
     rewrite <- Ez. symmetry. apply P2. congruence.
 Qed.
 
-Lemma val_rel_conv v0 v v' c V : ty_ok (f_int v0) (f_csz v0) (f_csg v0) (f_osz v0) (f_osg v0) ->
+Lemma val_rel_conv v0 v v' c V : ty_ok a (f_int v0) (f_csz v0) (f_csg v0) (f_osz v0) (f_osg v0) ->
   f_osz v = f_osz v0 -> f_osg v = f_osg v0 -> f_int v = f_int v0 ->
   val_rel v0 v c ->
   (forall x, c mod 2 ^ (8 * f_csz v) = x mod 2 ^ (8 * f_csz v) ->
@@ -450,11 +458,11 @@ Proof.
 Qed.
 
 (* a value whose destination type is not wider already satisfies the requirement *)
-Lemma val_rel_narrow v0 v c : ty_ok (f_int v0) (f_csz v0) (f_csg v0) (f_osz v0) (f_osg v0) ->
+Lemma val_rel_narrow v0 v c : ty_ok a (f_int v0) (f_csz v0) (f_csg v0) (f_osz v0) (f_osg v0) ->
   f_osz v = f_osz v0 -> f_osz v <= f_csz v -> val_rel v0 v c -> dst_ok (fmove_of v0) (st0 (f_cur v0)) c.
 Proof.
   intros Hty Ez Hle [[E1 [E2 E3]] | [E1 [E2 E3]]]; [| assumption].
-  destruct (ty_ok_range _ _ _ _ _ Hty) as [R1 R2].
+  destruct (ty_ok_range _ _ _ _ _ _ Hty) as [R1 R2].
   unfold dst_ok, fmove_of. cbn [m_int m_sbits m_dbits m_ssigned].
   destruct (Z.ltb_spec (8 * f_csz v0) (8 * f_osz v0)); [lia|]. rewrite andb_false_r.
   rewrite Z.min_r by lia.
@@ -507,7 +515,7 @@ Proof.
     as [V [HV [P1 P2]]].
   split; [rewrite fset_length; assumption|]. split; [| split].
   - eapply fcur_inj_set; [eassumption | eassumption |]. cbn [fmoved f_cur]. assumption.
-  - apply fwr_ok_snoc; [assumption|]. intros l Hl. rewrite fconv_writes in Hl. destruct Hl as [E | []]. subst l.
+  - apply fwr_ok_snoc; [assumption | apply fconv_wf; assumption |]. intros l Hl. rewrite fconv_writes in Hl. destruct Hl as [E | []]. subst l.
     eapply work_allowed; eassumption.
   - intros k u0 u Hu0 Hu. rewrite exec_snoc, HV.
     destruct (Nat.eq_dec k i) as [E | E].
@@ -523,10 +531,16 @@ Proof.
       apply upd_other. eapply Hfree; eassumption.
 Qed.
 
+Lemma store_bits_ge int r n : n <= store_bits a int r n.
+Proof.
+  unfold store_bits. destruct a; try lia. destruct (int && (n =? 8) && (4 <=? r)) eqn:E; [| lia].
+  apply andb_prop in E. destruct E as [E _]. apply andb_prop in E. destruct E as [_ E]. apply Z.eqb_eq in E. lia.
+Qed.
+
 Lemma finv_store vars emit i v n :
   finv vars emit -> nth_error vars i = Some v -> is_regl (f_out v) = false ->
   (forall k u, k <> i -> nth_error vars k = Some u -> f_cur u <> f_out v) ->
-  f_osz v <= f_csz v -> n = 8 * f_osz v ->
+  f_osz v <= f_csz v -> 8 * f_osz v <= n ->
   finv (fset vars i (fmoved v (f_out v) true)) (emit ++ [fstore (f_out v) (f_cur v) n]).
 Proof.
   intros Hinv Hv Hmem Hfree Hle Hn.
@@ -535,11 +549,13 @@ Proof.
   destruct Hinv as [Hlen [Hinj [Hfr Hrel]]].
   pose proof (nth_error_lt _ _ _ Hv) as Hi.
   destruct Hvr as [Ro [Rz [Rg [Ri [Rd [Rc Rv]]]]]]. destruct Hok as [Hty0 _].
-  destruct (ty_ok_range _ _ _ _ _ Hty0) as [R1 R2].
+  destruct (ty_ok_range _ _ _ _ _ _ Hty0) as [R1 R2].
   destruct (fstore_sound (f_out v) (f_cur v) n (exec emit st0) ltac:(lia)) as [V [HV PV]].
   split; [rewrite fset_length; assumption|]. split; [| split].
   - eapply fcur_inj_set; [eassumption | eassumption |]. cbn [fmoved f_cur]. assumption.
-  - apply fwr_ok_snoc; [assumption|]. intros l Hl. cbn [fstore inst_writes In] in Hl. destruct Hl as [E | []]. subst l.
+  - apply fwr_ok_snoc; [assumption | |].
+    { unfold fstore. cbn [wf_inst]. rewrite !Z.leb_refl. replace (0 <? n) with true by (symmetry; apply Z.ltb_lt; lia). reflexivity. }
+    intros l Hl. cbn [fstore inst_writes In] in Hl. destruct Hl as [E | []]. subst l.
     assumption.
   - intros k u0 u Hu0 Hu. rewrite exec_snoc, HV.
     destruct (Nat.eq_dec k i) as [E | E].
@@ -559,7 +575,7 @@ Proof.
 Qed.
 
 Lemma grp_swap_true g : grp_swap a g = true -> g = 0.
-Proof. unfold grp_swap. destruct a; [apply Z.eqb_eq | discriminate]. Qed.
+Proof. unfold grp_swap. destruct a; try discriminate; apply Z.eqb_eq. Qed.
 
 Lemma finv_xchg vars emit i j v alt g c o dv da :
   finv vars emit -> nth_error vars i = Some v -> nth_error vars j = Some alt ->
@@ -595,7 +611,11 @@ Proof.
   assert (Hgne : Reg g c <> Reg g o) by congruence.
   split; [rewrite !fset_length; assumption|]. split; [| split].
   - eapply fcur_inj_swap; try eassumption; cbn [fupd f_cur]; congruence.
-  - apply fwr_ok_snoc; [assumption|]. intros l Hl. cbn [inst_writes In] in Hl.
+  - apply fwr_ok_snoc; [assumption | |].
+    { cbn [wf_inst]. fold w. replace (0 <? w) with true by (symmetry; apply Z.ltb_lt; pose proof (sz_ok_range _ Scv); lia).
+      replace (w <=? 64) with true by (symmetry; apply Z.leb_le; lia).
+      replace (loc_eqb (Reg g o) (Reg g c)) with false; [reflexivity|]. symmetry. apply loc_eqb_false. congruence. }
+    intros l Hl. cbn [inst_writes In] in Hl.
     destruct Hl as [E | [E | []]]; subst l; [rewrite <- Eov; assumption|].
     eapply work_allowed; eassumption.
   - intros k u0 u Hu0 Hu. rewrite exec_snoc. cbn [exec_inst]. set (st := exec emit st0) in *.
@@ -828,18 +848,18 @@ Proof.
       { rewrite <- Hiv. rewrite <- Ec at 2. apply finv_conv; try assumption; [| discriminate].
         intros k' u' Hk' Hu' E. apply Hk'. destruct Hinv as [_ [Hinj _]]. apply (Hinj k' k u' v Hu' Hv). congruence. }
       assert (Hu : nth_error (fset vars k u) k = Some u) by (apply nth_fset_eq; assumption).
-      pose proof (finv_store _ _ k u (8 * (if f_int v then f_osz v else f_csz v)) Hinv1 Hu Hm
+      pose proof (finv_store _ _ k u (store_bits a (f_int v) r (8 * (if f_int v then f_osz v else f_csz v))) Hinv1 Hu Hm
                     (out_slot_free _ _ _ _ Hinv1 Hu Hm)) as Hst.
       rewrite fset_fset in Hst. cbn [u fmoved f_out f_osz f_osg f_int f_csz f_cur] in Hst.
       rewrite app_assoc. apply P1_set; try assumption; [| reflexivity].
-      apply Hst; [lia | rewrite Hiv; reflexivity].
+      apply Hst; [lia | rewrite Hiv; apply store_bits_ge].
     + cbn [app]. apply P1_set; try assumption; [| reflexivity]. rewrite <- Ec.
       assert (Hle : f_osz v <= f_csz v).
       { unfold fneeds_ext in Hx. destruct (f_int v).
         - cbn [andb] in Hx. apply Z.ltb_ge in Hx. assumption.
         - apply ty_ok_nonint in Hty. lia. }
       apply finv_store; try assumption; [eapply out_slot_free; eassumption|].
-      destruct (f_int v); [reflexivity|]. apply ty_ok_nonint in Hty. lia.
+      etransitivity; [| apply store_bits_ge]. destruct (f_int v); [lia|]. apply ty_ok_nonint in Hty. lia.
   - (* stack source: through a free GP register *)
     destruct (zmin_list (favail wgp wvec vars 0)) as [sc |] eqn:Hsc; [| exact I].
     apply zmin_list_in in Hsc. apply favail_in in Hsc. destruct Hsc as [S1 S2].
@@ -852,15 +872,15 @@ Proof.
     { rewrite <- Hiv. rewrite <- Ec. apply finv_conv; try assumption; [| discriminate | unfold vgrp; rewrite Hiv; reflexivity].
       intros k' u' Hk' Hu'. exact (fassigned_false _ _ _ _ S2 Hu'). }
     assert (Hu : nth_error (fset vars k u) k = Some u) by (apply nth_fset_eq; assumption).
-    pose proof (finv_store _ _ k u (8 * (if f_int v then f_osz v else f_csz v)) Hinv1 Hu Hm
+    pose proof (finv_store _ _ k u (store_bits a true sc (8 * (if f_int v then f_osz v else f_csz v))) Hinv1 Hu Hm
                   (out_slot_free _ _ _ _ Hinv1 Hu Hm)) as Hst.
     rewrite fset_fset in Hst. cbn [u fmoved f_out f_osz f_osg f_int f_csz f_cur] in Hst.
     change (em ++ [fconv a (Reg 0 sc) (Mem ca co) true (f_csz v) (f_csg v) (f_osz v) (f_osg v);
-                   fstore (f_out v) (Reg 0 sc) (8 * (if f_int v then f_osz v else f_csz v))])
+                   fstore (f_out v) (Reg 0 sc) (store_bits a true sc (8 * (if f_int v then f_osz v else f_csz v)))])
       with (em ++ [fconv a (Reg 0 sc) (Mem ca co) true (f_csz v) (f_csg v) (f_osz v) (f_osg v)] ++
-                  [fstore (f_out v) (Reg 0 sc) (8 * (if f_int v then f_osz v else f_csz v))]).
+                  [fstore (f_out v) (Reg 0 sc) (store_bits a true sc (8 * (if f_int v then f_osz v else f_csz v)))]).
     rewrite app_assoc. apply P1_set; try assumption; [| reflexivity].
-    apply Hst; [lia | rewrite Hiv; reflexivity].
+    apply Hst; [lia | rewrite Hiv; apply store_bits_ge].
 Qed.
 
 Lemma stk_phase_ok vs1 em1 : finv vs0 [] -> stk_phase a wgp wvec vs0 = Some (vs1, em1) -> finv vs1 em1 /\ stk_done vs1.
@@ -920,7 +940,7 @@ Proof.
   destruct (fconv_sound a (f_out v) (f_cur v) (f_int v) (f_csz v) (f_csg v) (f_osz v) (f_osg v) (exec em st0) Hty)
     as [V [HV [Q1 Q2]]].
   split; [rewrite fset_length; assumption|]. split; [| split].
-  - apply fwr_ok_snoc; [assumption|]. intros l Hl. rewrite fconv_writes in Hl. destruct Hl as [E | []]. subst l.
+  - apply fwr_ok_snoc; [assumption | apply fconv_wf; assumption |]. intros l Hl. rewrite fconv_writes in Hl. destruct Hl as [E | []]. subst l.
     left. rewrite Ro. apply in_map. eapply nth_error_In; eassumption.
   - intros i u Hi Hu. destruct (Nat.eq_dec i k) as [E | E].
     + subst i. rewrite nth_fset_eq in Hu by assumption. inversion Hu; subst u. reflexivity.
@@ -1003,9 +1023,9 @@ Proof.
   - apply andb_prop in H. destruct H as [H _]. apply Z.eqb_eq in H. assumption.
 Qed.
 
-Lemma fvar_ok_sound wgp wvec v : fvar_ok wgp wvec v = true -> v0_ok wgp wvec v.
+Lemma fvar_ok_sound a wgp wvec v : fvar_ok wgp wvec v = true -> fvar_arch_ok a v = true -> v0_ok a wgp wvec v.
 Proof.
-  unfold fvar_ok, v0_ok. intros H. apply andb_prop in H. destruct H as [H H4]. apply andb_prop in H. destruct H as [H H3].
+  unfold fvar_ok, v0_ok. intros H Harch. apply andb_prop in H. destruct H as [H H4]. apply andb_prop in H. destruct H as [H H3].
   apply andb_prop in H. destruct H as [H1 H2].
   assert (Hg : match f_cur v with Reg g _ => g = vgrp v | Mem _ _ => True end /\
                match f_out v with Reg g _ => g = vgrp v | Mem _ _ => True end /\
@@ -1018,33 +1038,36 @@ Proof.
     - repeat split. intros _ _. assumption. }
   destruct Hg as [G1 [G2 G3]].
   split; [| split; [| split]].
-  - unfold ty_ok. destruct (f_int v).
+  - unfold ty_ok. destruct (f_int v) eqn:Hiv0.
     + apply andb_prop in H3. destruct H3 as [A B]. split; apply sz_okb_spec; assumption.
     + apply andb_prop in H3. destruct H3 as [H3 D]. apply andb_prop in H3. destruct H3 as [H3 C].
       apply andb_prop in H3. destruct H3 as [A B]. apply Z.eqb_eq in B. apply Bool.eqb_prop in C. apply Bool.eqb_prop in D.
-      split; [| tauto]. unfold vec_size in A. unfold vsz_ok. rewrite !orb_true_iff, !Z.eqb_eq in A. tauto.
+      split; [| tauto]. unfold vec_size in A. unfold vsz_ok. rewrite !orb_true_iff, !Z.eqb_eq in A.
+      unfold fvar_arch_ok in Harch. destruct (f_int v) eqn:Hiv; [discriminate|].
+      destruct A as [[[[A | A] | A] | A] | A]; try tauto;
+        (destruct a; try (apply Z.leb_le in Harch; lia); right; right; right; split; [reflexivity | tauto]).
   - apply loc_ok_sound; assumption.
   - apply loc_ok_sound; assumption.
   - assumption.
 Qed.
 
-Definition fwf_input (wgp wvec : list Z) (vs : list fvar) : Prop :=
-  (forall i v0, nth_error vs i = Some v0 -> v0_ok wgp wvec v0) /\ fcur_inj vs /\ fout_inj vs /\
+Definition fwf_input (a : farch) (wgp wvec : list Z) (vs : list fvar) : Prop :=
+  (forall i v0, nth_error vs i = Some v0 -> v0_ok a wgp wvec v0) /\ fcur_inj vs /\ fout_inj vs /\
   (forall v, In v vs ->
      f_done v = is_regl (f_cur v) && loc_eqb (f_cur v) (f_out v) && (negb (f_int v) || (f_osz v <=? f_csz v))).
 
-Lemma fwf_inputb_sound wgp wvec vs : fwf_inputb wgp wvec vs = true -> fwf_input wgp wvec vs.
+Lemma fwf_inputb_sound a wgp wvec vs : fwf_inputb wgp wvec vs = true -> farch_okb a vs = true -> fwf_input a wgp wvec vs.
 Proof.
-  unfold fwf_inputb, fwf_input. intros H. apply andb_prop in H. destruct H as [H H4]. apply andb_prop in H. destruct H as [H H3].
+  unfold fwf_inputb, fwf_input, farch_okb. intros H Ha. rewrite forallb_forall in Ha. apply andb_prop in H. destruct H as [H H4]. apply andb_prop in H. destruct H as [H H3].
   apply andb_prop in H. destruct H as [H1 H2]. rewrite forallb_forall in H1, H4.
   split; [| split; [| split]].
-  - intros i v0 Hi. apply fvar_ok_sound. apply H1. eapply nth_error_In; eassumption.
+  - intros i v0 Hi. apply fvar_ok_sound; [apply H1 | apply Ha]; eapply nth_error_In; eassumption.
   - apply nodup_locs_spec in H2. exact (NoDup_map_inj_loc f_cur vs H2).
   - apply nodup_locs_spec in H3. exact (NoDup_map_inj_loc f_out vs H3).
   - intros v Hv. specialize (H4 v Hv). apply Bool.eqb_prop in H4. rewrite H4. reflexivity.
 Qed.
 
-Lemma fwf_finv wgp wvec vs st0 : fwf_input wgp wvec vs -> finv wgp wvec vs st0 vs [].
+Lemma fwf_finv a wgp wvec vs st0 : fwf_input a wgp wvec vs -> finv wgp wvec vs st0 vs [].
 Proof.
   intros [Hok [Hc [Ho Hd]]]. split; [reflexivity|]. split; [assumption|]. split; [constructor|].
   intros i v0 v H0 Hv. assert (v = v0) by congruence. subst v. clear Hv.
@@ -1062,11 +1085,11 @@ Qed.
 (* ---------------------------------------------------------------------------------------------- *)
 (* 1. partial correctness of the whole function *)
 
-Theorem fsolve_correct : forall a wgp wvec vs0 ms, fwf_inputb wgp wvec vs0 = true -> fsolve a wgp wvec vs0 = SOk ms ->
+Theorem fsolve_correct : forall a wgp wvec vs0 ms, fwf_inputb wgp wvec vs0 = true -> farch_okb a vs0 = true -> fsolve a wgp wvec vs0 = SOk ms ->
   forall st0 v0, In v0 vs0 -> dst_ok (fmove_of v0) (st0 (f_cur v0)) (exec ms st0 (f_out v0)).
 Proof.
-  intros a wgp wvec vs0 ms Hwf Hs st0 v0 Hin. apply fwf_inputb_sound in Hwf.
-  pose proof (fwf_finv wgp wvec vs0 st0 Hwf) as Hinv. destruct Hwf as [Hok [_ [Ho _]]].
+  intros a wgp wvec vs0 ms Hwf Har Hs st0 v0 Hin. apply (fwf_inputb_sound a) in Hwf; [| exact Har].
+  pose proof (fwf_finv a wgp wvec vs0 st0 Hwf) as Hinv. destruct Hwf as [Hok [_ [Ho _]]].
   apply In_nth_error in Hin. destruct Hin as [i Hi].
   exact (proj2 (fsolve_ok a wgp wvec vs0 st0 Hok Ho ms Hinv Hs) i v0 Hi).
 Qed.
@@ -1074,29 +1097,40 @@ Qed.
 (* ---------------------------------------------------------------------------------------------- *)
 (* 2. frame *)
 
-Theorem fsolve_writes : forall a wgp wvec vs0 ms, fwf_inputb wgp wvec vs0 = true -> fsolve a wgp wvec vs0 = SOk ms ->
+Theorem fsolve_writes : forall a wgp wvec vs0 ms, fwf_inputb wgp wvec vs0 = true -> farch_okb a vs0 = true -> fsolve a wgp wvec vs0 = SOk ms ->
   forall l, In l (writes ms) -> In l (map f_out vs0) \/ In l (map (Reg 0) wgp) \/ In l (map (Reg 1) wvec).
 Proof.
-  intros a wgp wvec vs0 ms Hwf Hs l Hl. apply fwf_inputb_sound in Hwf.
-  pose proof (fwf_finv wgp wvec vs0 (fun _ => 0) Hwf) as Hinv. destruct Hwf as [Hok [_ [Ho _]]].
+  intros a wgp wvec vs0 ms Hwf Har Hs l Hl. apply (fwf_inputb_sound a) in Hwf; [| exact Har].
+  pose proof (fwf_finv a wgp wvec vs0 (fun _ => 0) Hwf) as Hinv. destruct Hwf as [Hok [_ [Ho _]]].
   pose proof (proj1 (fsolve_ok a wgp wvec vs0 (fun _ => 0) Hok Ho ms Hinv Hs)) as Hfr.
   unfold writes in Hl. apply in_flat_map in Hl. destruct Hl as [i [Hi Hw]].
-  rewrite Forall_forall in Hfr. exact (Hfr i Hi l Hw).
+  rewrite Forall_forall in Hfr. exact (proj1 (Hfr i Hi) l Hw).
 Qed.
 
-Theorem fsolve_frame : forall a wgp wvec vs0 ms, fwf_inputb wgp wvec vs0 = true -> fsolve a wgp wvec vs0 = SOk ms ->
+(* every emitted instruction is a well-formed instruction of the validator's language (0 < n <= w <= wz; an exchange has two distinct
+   registers): the validator's own well-formedness test never rejects what the function emits *)
+Theorem fsolve_wf : forall a wgp wvec vs0 ms, fwf_inputb wgp wvec vs0 = true -> farch_okb a vs0 = true -> fsolve a wgp wvec vs0 = SOk ms ->
+  forallb wf_inst ms = true.
+Proof.
+  intros a wgp wvec vs0 ms Hwf Har Hs. apply (fwf_inputb_sound a) in Hwf; [| exact Har].
+  pose proof (fwf_finv a wgp wvec vs0 (fun _ => 0) Hwf) as Hinv. destruct Hwf as [Hok [_ [Ho _]]].
+  pose proof (proj1 (fsolve_ok a wgp wvec vs0 (fun _ => 0) Hok Ho ms Hinv Hs)) as Hfr.
+  apply forallb_forall. intros i Hi. rewrite Forall_forall in Hfr. exact (proj2 (Hfr i Hi)).
+Qed.
+
+Theorem fsolve_frame : forall a wgp wvec vs0 ms, fwf_inputb wgp wvec vs0 = true -> farch_okb a vs0 = true -> fsolve a wgp wvec vs0 = SOk ms ->
   forall st0 l, ~ In l (map f_out vs0) -> ~ In l (map (Reg 0) wgp) -> ~ In l (map (Reg 1) wvec) -> exec ms st0 l = st0 l.
 Proof.
-  intros a wgp wvec vs0 ms Hwf Hs st0 l H1 H2 H3. apply exec_frame. intros Hin.
-  destruct (fsolve_writes a wgp wvec vs0 ms Hwf Hs l Hin) as [H | [H | H]]; contradiction.
+  intros a wgp wvec vs0 ms Hwf Har Hs st0 l H1 H2 H3. apply exec_frame. intros Hin.
+  destruct (fsolve_writes a wgp wvec vs0 ms Hwf Har Hs l Hin) as [H | [H | H]]; contradiction.
 Qed.
 
 (* no incoming stack argument is ever overwritten *)
-Corollary fsolve_keeps_incoming : forall a wgp wvec vs0 ms, fwf_inputb wgp wvec vs0 = true -> fsolve a wgp wvec vs0 = SOk ms ->
+Corollary fsolve_keeps_incoming : forall a wgp wvec vs0 ms, fwf_inputb wgp wvec vs0 = true -> farch_okb a vs0 = true -> fsolve a wgp wvec vs0 = SOk ms ->
   forall st0 off, exec ms st0 (Mem 0 off) = st0 (Mem 0 off).
 Proof.
-  intros a wgp wvec vs0 ms Hwf Hs st0 off. apply (fsolve_frame a wgp wvec vs0 ms Hwf Hs).
-  - intros Hin. apply in_map_iff in Hin. destruct Hin as [v [E Hv]]. apply fwf_inputb_sound in Hwf.
+  intros a wgp wvec vs0 ms Hwf Har Hs st0 off. apply (fsolve_frame a wgp wvec vs0 ms Hwf Har Hs).
+  - intros Hin. apply in_map_iff in Hin. destruct Hin as [v [E Hv]]. apply (fwf_inputb_sound a) in Hwf; [| exact Har].
     destruct Hwf as [Hok _]. apply In_nth_error in Hv. destruct Hv as [i Hi].
     destruct (Hok i v Hi) as [_ [_ [Hlo _]]]. unfold locp in Hlo. rewrite E in Hlo. discriminate.
   - intros Hin. apply in_map_iff in Hin. destruct Hin as [r [E _]]. discriminate.
@@ -1104,14 +1138,29 @@ Proof.
 Qed.
 
 (* the writes of the whole sequence, as a decidable-style statement: every written stack slot is a destination slot *)
-Corollary fsolve_mem_writes : forall a wgp wvec vs0 ms, fwf_inputb wgp wvec vs0 = true -> fsolve a wgp wvec vs0 = SOk ms ->
+Corollary fsolve_mem_writes : forall a wgp wvec vs0 ms, fwf_inputb wgp wvec vs0 = true -> farch_okb a vs0 = true -> fsolve a wgp wvec vs0 = SOk ms ->
   forall ar off, In (Mem ar off) (writes ms) -> In (Mem ar off) (map f_out vs0) /\ ar = 1.
 Proof.
-  intros a wgp wvec vs0 ms Hwf Hs ar off Hin.
-  destruct (fsolve_writes a wgp wvec vs0 ms Hwf Hs _ Hin) as [H | [H | H]].
-  - split; [assumption|]. apply in_map_iff in H. destruct H as [v [E Hv]]. apply fwf_inputb_sound in Hwf.
+  intros a wgp wvec vs0 ms Hwf Har Hs ar off Hin.
+  destruct (fsolve_writes a wgp wvec vs0 ms Hwf Har Hs _ Hin) as [H | [H | H]].
+  - split; [assumption|]. apply in_map_iff in H. destruct H as [v [E Hv]]. apply (fwf_inputb_sound a) in Hwf; [| exact Har].
     destruct Hwf as [Hok _]. apply In_nth_error in Hv. destruct Hv as [i Hi].
     destruct (Hok i v Hi) as [_ [_ [Hlo _]]]. unfold locp in Hlo. rewrite E in Hlo. assumption.
   - apply in_map_iff in H. destruct H as [r [E _]]. discriminate.
   - apply in_map_iff in H. destruct H as [r [E _]]. discriminate.
+Qed.
+
+(* the statement at full strength: what every successful run establishes AND what it leaves alone *)
+Theorem fsolve_spec : forall a wgp wvec vs0 ms, fwf_inputb wgp wvec vs0 = true -> farch_okb a vs0 = true -> fsolve a wgp wvec vs0 = SOk ms ->
+  forallb wf_inst ms = true /\
+  forall st0,
+    (forall v0, In v0 vs0 -> dst_ok (fmove_of v0) (st0 (f_cur v0)) (exec ms st0 (f_out v0))) /\
+    (forall l, ~ In l (map f_out vs0) -> ~ In l (map (Reg 0) wgp) -> ~ In l (map (Reg 1) wvec) -> exec ms st0 l = st0 l) /\
+    (forall off, exec ms st0 (Mem 0 off) = st0 (Mem 0 off)).
+Proof.
+  intros a wgp wvec vs0 ms Hwf Har Hs. split; [exact (fsolve_wf a wgp wvec vs0 ms Hwf Har Hs)|].
+  intros st0. split; [| split].
+  - intros v0 Hin. exact (fsolve_correct a wgp wvec vs0 ms Hwf Har Hs st0 v0 Hin).
+  - intros l H1 H2 H3. exact (fsolve_frame a wgp wvec vs0 ms Hwf Har Hs st0 l H1 H2 H3).
+  - intros off. exact (fsolve_keeps_incoming a wgp wvec vs0 ms Hwf Har Hs st0 off).
 Qed.
